@@ -430,6 +430,41 @@ class Ctx:
                                          wall_s=round(r["wall"], 1), role="validate", lines=len(rows), rejected=len(bad)))
         return bad
 
+    def tlc_emit_many(self, module, cfgs, env=None, **kw):
+        """Several emission configs of one module run concurrently (one single-worker TLC each)."""
+        from concurrent.futures import ThreadPoolExecutor
+
+        names = [self._name(module, c, None) for c in cfgs]
+
+        def one(args):
+            c, n = args
+            return self.tlc_emit(module, c, name=n, env=env, workers=1, **kw)
+
+        with ThreadPoolExecutor(max_workers=min(NCPU, len(cfgs))) as ex:
+            parts = list(ex.map(one, zip(cfgs, names)))
+        return [r for part in parts for r in part]
+
+    def tlc_validate_sharded(self, module, cfg, rows, shards=None, **kw):
+        """Trace validation of independent lines, split over concurrent TLC processes."""
+        from concurrent.futures import ThreadPoolExecutor
+
+        if not rows:
+            return {}
+        shards = max(1, min(shards or NCPU, len(rows) // 50 or 1))
+        parts = [rows[i::shards] for i in range(shards)]
+        names = [f"{self._name(module, cfg, None)}_s{i}" for i in range(shards)]
+
+        def one(args):
+            part, n = args
+            return self.tlc_validate(module, cfg, part, name=n, **kw)
+
+        with ThreadPoolExecutor(max_workers=shards) as ex:
+            res = list(ex.map(one, zip(parts, names)))
+        bad = {}
+        for r in res:
+            bad.update(r)
+        return bad
+
     def pmap(self, fn, items, **kw):
         return pmap(fn, items, **kw)
 
